@@ -103,4 +103,6 @@ func corr(seed uint64, n int, t tools) {
 		corrWriters(seed, n/2+2, t, &id)
 	}
 	corrRest(seed, n, t, &id)
+	corrCombine(seed, n/2+10, t, &id)
+	corrInits(seed, n/3+10, t, &id)
 }
